@@ -43,21 +43,21 @@ def grouping(draw, n, allow_default=True, force=None, min_groups=1):
         return dict(by='default', kind='int', container='list', values=list(range(n)))
     kind = 'int' if by == 'index' else draw(st.sampled_from(['int', 'str']))
     _, labs = draw(gen.label_set(n, kinds=(kind,)))
-    mode = draw(st.sampled_from(['unique', 'unique', 'repeated', 'repeated', 'repeated', 'repeated',
-                                 'repeated', 'one']))
+    mode = draw(st.sampled_from(['repeated', 'repeated', 'repeated', 'repeated', 'repeated',
+                                 'unique', 'unique', 'one']))
     lo = min(max(1, min_groups), n)
     if mode == 'unique' or n == 1:
         assign = draw(gen.permutation(n))
     elif mode == 'one' and lo <= 1:
         assign = [0] * n
     else:
-        # at least one group with two members, mostly at least two groups
+        # exactly m groups (surjective by construction), m <= n-1: some group has two members
         m = draw(st.integers(max(lo, min(2, n - 1)), max(lo, n - 1)))
-        assign = draw(st.lists(st.integers(0, m - 1), min_size=n, max_size=n))
-        # construction, not rejection: make sure at least `lo` labels occur
-        if len(set(assign)) < lo:
-            for g in range(lo):
-                assign[g] = g
+        m = min(m, n)
+        extra = draw(st.lists(st.integers(0, m - 1), min_size=n - m, max_size=n - m))
+        perm = draw(gen.permutation(n))
+        base = list(range(m)) + extra
+        assign = [base[i] for i in perm]
     values = [labs[a] for a in assign]
     return dict(by=by, kind=kind, container=draw(gen.container), values=values)
 
@@ -96,7 +96,11 @@ def source_vectors(spec):
     v = np.zeros((r, p))
     for i in range(r):
         for k in range(p):
-            v[i, k] = float(spec['vals'][i][k]) + 256.0 * (i * p + k + 1)
+            if spec.get('numeric'):
+                # plain positive data for checks that compute with the values (C05 leakage)
+                v[i, k] = abs(float(spec['vals'][i][k])) + 0.125
+            else:
+                v[i, k] = float(spec['vals'][i][k]) + 256.0 * (i * p + k + 1)
     for (a, b) in spec.get('nans', []):
         if p > 0:
             v[a % r, b % p] = np.nan
